@@ -106,6 +106,13 @@ class Ctx:
         self.axioms = {}
         self.notes = []
         self._nt = set()
+        # stale replay files of this property belong to earlier runs
+        import glob
+        for f in glob.glob(os.path.join(ROOT, "replays", f"{prop}-*.json")):
+            try:
+                os.remove(f)
+            except OSError:
+                pass
 
     # ------------------------------------------------------------ build
     def build(self, modules):
